@@ -1215,3 +1215,32 @@ func (x *FnIndex) symLen(s ssa.Value) linform {
 	_, lo, hi := x.sliceInterval(s)
 	return hi.add(lo, -1)
 }
+
+// pathExistsE is pathExists with a set of CFG edges that may not be taken.
+func pathExistsE(fn *ssa.Function, from ssa.Instruction, to func(ssa.Instruction) bool, forbidden map[edgeKey]bool) (ssa.Instruction, bool) {
+	type start struct {
+		b *ssa.BasicBlock
+		i int
+	}
+	work := []start{{from.Block(), instrIdx(from) + 1}}
+	seen := map[*ssa.BasicBlock]bool{}
+	for len(work) > 0 {
+		s := work[len(work)-1]
+		work = work[:len(work)-1]
+		for i := s.i; i < len(s.b.Instrs); i++ {
+			if to(s.b.Instrs[i]) {
+				return s.b.Instrs[i], true
+			}
+		}
+		for k, n := range s.b.Succs {
+			if forbidden[edgeKey{s.b, k}] {
+				continue
+			}
+			if !seen[n] {
+				seen[n] = true
+				work = append(work, start{n, 0})
+			}
+		}
+	}
+	return nil, false
+}
